@@ -100,7 +100,7 @@ def same(want, got):
             return False
         a, b = want[1], got[1]
         return a == b or abs(a - b) <= 1e-9 * max(abs(a), abs(b))
-    return type(want) is type(got) and want == got
+    return type(want) is type(got) and absval.strict_eq(want, got)      # (True == 1 in Python, also inside tuples)
 
 
 def check_expr(run, it, rec):
